@@ -26,6 +26,9 @@ type VerifTable struct {
 type VerifVersion struct {
 	ID     int64
 	Levels [][]VerifTable
+	// what computeCompaction left in the version: cLevel and cScore >= 1
+	CLevel   int
+	ScoreGE1 bool
 }
 
 // VerifRecord is the part of a session record that edits the table set.
@@ -61,7 +64,7 @@ func verifVersion(v *version) *VerifVersion {
 	if v == nil {
 		return nil
 	}
-	vv := &VerifVersion{ID: v.id}
+	vv := &VerifVersion{ID: v.id, CLevel: v.cLevel, ScoreGE1: v.cScore >= 1}
 	for level, tf := range v.levels {
 		vv.Levels = append(vv.Levels, verifTables(level, tf))
 	}
